@@ -10,6 +10,7 @@ Definition x_parse_layout := parse_layout.
 Definition x_convert := convert.
 Definition x_expand := expand.
 Definition x_spec_load := spec_load.
+Definition x_block_lengths := block_lengths.
 Definition x_to_json := to_json.
 Definition x_outcome_eqb := outcome_eqb.
 Definition x_layout_eqb := layout_eqb.
@@ -33,6 +34,6 @@ Definition x_canon := canon.
 Definition x_save_text := save_text.
 Definition x_load_text := load_text.
 
-Extraction "model.ml" x_load x_parse_layout x_convert x_expand x_spec_load x_to_json x_outcome_eqb
+Extraction "model.ml" x_block_lengths x_load x_parse_layout x_convert x_expand x_spec_load x_to_json x_outcome_eqb
   x_layout_eqb x_json_eqb x_wf_basic x_check_roundtrip x_check_accepted_wf x_check_expand x_parse_row x_keys_sorted x_model_expand_agrees x_expand_core x_convert_core
   x_print_pretty x_print_compact x_parse_text x_printable x_depth x_canon x_save_text x_load_text.
